@@ -127,6 +127,11 @@ def regen_coqproject():
         open(p, "w").write(body)
     if changed or not os.path.exists(os.path.join(COQ, "Makefile")):
         sh("coq_makefile -f _CoqProject -o Makefile", cwd=COQ, check=True)
+    # an interrupted coqdep leaves an empty (but fresh-looking) dependency file behind, after which make
+    # would rebuild nothing that Props/Cnn.vo depends on: drop it so that it is recomputed
+    d = os.path.join(COQ, ".Makefile.d")
+    if os.path.exists(d) and os.path.getsize(d) == 0:
+        os.remove(d)
 
 
 def run_constgen(cfg):
@@ -162,7 +167,7 @@ def build_props(cfg, timeout):
                 os.remove(os.path.join(COQ, pf[:-2] + ext))
             except FileNotFoundError:
                 pass
-        rc, out = sh("timeout %d make -j16 %s" % (timeout, pf[:-2] + ".vo"), cwd=COQ)
+        rc, out = sh("timeout %d make -j16 COQC='timeout %d coqc' %s" % (timeout, int(cfg.get("coqc_file_timeout_s", 900)), pf[:-2] + ".vo"), cwd=COQ)
     src = strip_comments(open(os.path.join(COQ, pf)).read())
     theorems = re.findall(r'^\s*(?:Theorem|Lemma|Corollary)\s+(\w+)', src, re.M)
     printed = re.findall(r'^\s*Print Assumptions\s+(\w+)\s*\.', src, re.M)
@@ -551,7 +556,7 @@ def setup():
     with Lock("coq"):
         regen_coqproject()
         targets = " ".join(c["props_file"][:-2] + ".vo" for c in cfgs)
-        rc, out = sh("timeout 3400 make -k -j16 " + targets, cwd=COQ)
+        rc, out = sh("timeout 3400 make -k -j16 COQC='timeout 900 coqc' " + targets, cwd=COQ)
     if rc != 0:
         failures += 1
         print("WARNING coq build incomplete:\n" + out[-3000:])
